@@ -155,6 +155,8 @@ func (r *Run) Enabled() []wx.Op {
 			// one representative per operation family on a dead (possibly recycled) handle
 			if len(c.Move) > 0 {
 				ci := int8(c.Move[0])
+				add(OpReadDead, S, ci, 0, 0)
+				add(OpReadDead, S, ci, 1, 0)
 				if f&FMove != 0 {
 					add(OpAdd, S, ci, 0, 0)
 					add(OpRemove, S, ci, 0, 0)
